@@ -478,9 +478,22 @@ RUNNERS = {"grid": run_grid, "ravel": run_ravel, "cvt": run_cvt, "cvt_overflow":
 
 
 def run_case(case):
+    import traceback
+    from core import Infra
     drv = Driver("idx")
     try:
         return RUNNERS[case["kind"]](case, drv)
+    except Infra:
+        raise
+    except (ValueError, RuntimeError, IndexError, FloatingPointError, OverflowError) as e:
+        # every input of this check is a valid archive with finite measures: an exception from the library is
+        # itself a violation ("all finite measure vectors ... up to the largest finite float")
+        tb = traceback.extract_tb(e.__traceback__)
+        if any("/ribs/" in fr.filename for fr in tb):
+            where = next(f"{fr.filename.split('/ribs/')[-1]}:{fr.lineno}" for fr in reversed(tb) if "/ribs/" in fr.filename)
+            return Failure("oracle", f"[C03] {case['kind']}: a valid index query with finite measures raised "
+                           f"{type(e).__name__}: {str(e)[:160]} (at ribs/{where})")
+        raise
     finally:
         drv.close()
 
